@@ -144,6 +144,10 @@ def _collision(node, fmt_):
     return len(set(ps)) < len(ps)
 
 
+def _late_concept(node):
+    return any(r == '/' and i > 0 for i, (r, x) in enumerate(node[1])) or any(_late_concept(x) for r, x in node[1] if not interp.is_atom(x))
+
+
 def nontrivial(case):
     node = interp.to_node(case['tree'])
     if interp.wellformed(node, case['model']) is not None:
@@ -161,6 +165,7 @@ def classes(case):
     if _collision(node, case['fmt']): out.append('prefix-collision')
     s = tree_stats(node)
     if s['reent'] and s['aligned']: out.append('maybe-aligned-reentrancy')
+    if _late_concept(node): out.append('concept-branch-not-first')
     return out
 
 
@@ -221,6 +226,20 @@ def _cases(draw, large=False):
             cs(node)
             if len(set(news)) == len(news) and not (consts - set(olds)) & set(news):
                 j = interp.to_json(rename_tree(node, dict(zip(olds, rot))))
+    if draw(st.integers(0, 7)) == 0:
+        # a hand-built tree: the '/' branch is not the first branch of its node (Tree, interpret and format accept that)
+        k = draw(st.integers(1, 3))
+
+        def mv(nd):
+            brs = nd[1]
+            for br in brs:
+                if isinstance(br[1], list):
+                    mv(br[1])
+            ix = [i for i, br in enumerate(brs) if br[0] == '/']
+            if len(ix) == 1 and len(brs) >= 2:
+                c = brs.pop(ix[0])
+                brs.insert(1 + (k - 1) % len(brs), c)
+        mv(j)
     return {'tree': j, 'model': spec, 'fmt': fmt_, 'touch': draw(st.booleans())}
 
 
